@@ -216,6 +216,10 @@ pub fn judge_a(b: &[u8]) -> VerdictA {
     packetish!("Tfb", TransportFeedback::parse(b), Some(205), 12);
     packetish!("Pfb", PayloadFeedback::parse(b), Some(206), 12);
     packetish!("Unknown", Unknown::parse(b), None, 4);
+    // typed parsers defined outside the crate on the public framing helper (as tests/custom_packet.rs does)
+    packetish!("Custom8", crate::c08::Custom8::parse(b), Some(255), 8);
+    packetish!("Custom14", crate::c08::Custom14::parse(b), Some(251), 14);
+    packetish!("Custom6", crate::c08::Custom6::parse(b), Some(250), 6);
     // Packet: below 4 bytes its own minimum applies; from 4 bytes on the guarantees of the
     // type it dispatches to
     if b.len() < 4 {
